@@ -47,6 +47,11 @@ def main():
     if os.path.exists(rd):
         shutil.copy(rd, os.path.join(out, "README.md"))
     meta = {"name": name, "kind": "behaviour-preserving change written by an independent sub-agent (test suite passes with it)"}
+    mp = os.path.join(out, "meta.json")
+    if os.path.exists(mp):
+        # what the machinery reported the first time this change was tried is kept
+        prev = json.load(open(mp))
+        meta["first_run"] = prev.get("first_run") or {"fact_files_differing": prev.get("fact_files_differing"), "alarms": prev.get("alarms")}
     base = tempfile.mkdtemp(prefix="facts-base-")
     new = tempfile.mkdtemp(prefix="facts-new-")
     try:
